@@ -78,7 +78,7 @@ Whole == {
   [pos |-> "insub",    q |-> SelQ(<<Star>>, InSub(A, [BaseQ EXCEPT !.sel = <<I(Col("c"), "")>>, !.from = Table(<<"<-", "u">>, "")]))],
   [pos |-> "limit",    q |-> [SelQ(<<Star>>, None) EXCEPT !.order = <<[key |-> <<"s">>, asc |-> FALSE], [key |-> <<"a">>, asc |-> TRUE]>>, !.limit = 2, !.offset = 1]],
   [pos |-> "spin",     q |-> SelQ(<<I(A, ""), I(FnQ("spin", "concat", <<S_, X>>), "v"), I(FnQ("spinasync", "concat", <<S_, X>>), "w")>>, None)],
-  [pos |-> "asyncmix", q |-> SelQ(<<I(FnQ("async", "concat", <<S_, X>>), "v"), I(A, ""), I(FnQ("async", "to_upper", <<S_>>), "w")>>, None)] }
+  [pos |-> "asyncmix", q |-> SelQ(<<I(FnQ("async", "concat", <<S_, X>>), "v"), I(A, ""), I(FnQ("async", "concat", <<A, X>>), "w")>>, None)] }
 
 Init == /\ \E d \in Docs :
              \/ \E f \in Forms : \E c \in Queries(f) : cs = [fam |-> c.pos, form |-> f.n, q |-> c.q, doc |-> d]
